@@ -417,7 +417,9 @@ def run(tier, seed):
         res = tlc.run("RBM", constants={"TMax": 1800, "Lanes": 32},
                       defs={"Archs": "{<<1,1,2>>, <<2,1,3>>, <<1,2,2>>}" if quick else
                             "{<<1,1,2>>, <<2,1,3>>, <<1,2,3>>, <<2,2,2>>, <<2,2,3>>}",
-                            "Vals": "{-1, 1, 2}" if quick else "{-2, -1, 1, 2}"},
+                            # (three values per parameter in both tiers: with four, the two 2x2 architectures alone are 131072
+                            # points and this run took more than 80 minutes on a machine that was busy otherwise)
+                            "Vals": "{-1, 1, 2}"},
                       invariants=["WellDefined", "JointBothWays", "CondNormalised", "Reversible", "Stationary", "Export"],
                       env={"POINTS_FILE": pf.path}, workers=16, timeout=3400)
     finally:
@@ -440,7 +442,7 @@ def run(tier, seed):
     try:
         res2 = tlc.run("PurifRBM", constants={"TMax": 1800, "Lanes": 32},
                        defs={"Archs": "{<<1,1,1,2>>}" if quick else "{<<1,1,1,2>>, <<2,1,1,3>>, <<1,1,2,2>>}",
-                             "Vals": "{-1, 1, 2}" if quick else "{-2, -1, 1, 2}"},
+                             "Vals": "{-1, 1, 2}"},
                        invariants=["WellDefined", "Marginal", "JointBothWays", "Reversible", "Stationary", "Export"],
                        env={"POINTS_FILE": pf.path}, workers=16, timeout=3400)
     finally:
